@@ -56,7 +56,7 @@ ASSUMPTIONS = ["SimFS resolves paths like a POSIX kernel without symbolic links 
                "iterdir order is insertion order; temporary file names are deterministic stand-ins"]
 EXPECTED_PROBES = ["hostile_op", "put_ok", "delete_ok", "get_file_ok", "listing_ok", "precondition_failed",
                    "valid_2_03", "fetch_ok", "rfetch_ok", "notification", "nul_path", "block2_beyond_eof",
-                   "block1_put", "enametoolong", "forbidden_ro", "indeterminate", "error_5xx"]
+                   "block1_put", "enametoolong", "forbidden_ro", "indeterminate", "error_5xx", "tfetch_ok", "bert_block"]
 
 ROOT = "/srv/root"
 SERVER = (common.SERVER_IP, 5683)
@@ -250,9 +250,16 @@ def gen(r, tier):
                     num = num + 1
                 else:
                     num, szx = r.choice([0, 1, 2, 3]), r.randint(0, 6)
-        elif x < 0.85:
+        elif x < 0.82:
             f = r.choice(tree["files"])
             ops.append({"op": "rfetch", "path": f[0].split("/"), "szx": r.randint(0, 6), "wait": r.chance(0.6)})
+        elif x < 0.85:
+            # the same server over CoAP-over-TCP (aiocoap-fileserver listens there too): a peer that announced
+            # block-wise transfer and a Max-Message-Size gets BERT blocks (SZX 7: several KiB per message, block
+            # numbers counting KiB)
+            f = r.choice([g for g in tree["files"] if g[1] >= 1024] or tree["files"])
+            ops.append({"op": "tfetch", "path": f[0].split("/"), "mms": r.choice([1152, 2300, 3400, 8320, 70000]),
+                        "szx": r.choice([7, 7, 6, 4, None])})
         elif x < 0.93:
             path = gen_hostile_path(r) if r.chance(0.3) else list(r.choice(EXISTING_FILES))
             o = req(GET, path, observe=0)
@@ -396,6 +403,12 @@ def corpus():
                 if s1 != s2:
                     pairs += [req(GET, [f], block2=[0, s1]), req(GET, [f], block2=[1, s2])]
         add("block2-consecutive-mixed-size-%s" % f, pairs)
+    # over TCP with BERT blocks: every Max-Message-Size class x requested size, on files of several KiB
+    bigtree = {"dirs": list(STD_TREE["dirs"]), "files": [list(f) for f in STD_TREE["files"]] + [["huge", 20000, 41], ["k8", 8192, 42],
+                                                                                              ["k8p", 8193, 43]]}
+    add("tcp-bert-fetch", [{"op": "tfetch", "path": [f], "mms": mms, "szx": szx}
+                           for f in ("huge", "k8", "k8p", "big", "f1024", "f0")
+                           for mms in (1152, 2300, 8320, 70000) for szx in (7, None, 6)], tree=bigtree)
     add("block2-on-listing", [req(GET, [], block2=[n, s]) for s in (0, 2, 6) for n in (0, 1, 2, 50)] +
         [req(GET, ["a", ""], block2=[0, 0]), req(GET, ["a", ""], block2=[1, 0])])
     # 7. create / read / conditional update / delete cycle
@@ -652,7 +665,14 @@ def execute(sim, scenario):
 
         async def setup():
             server = fsmod.FileServer(fs.Path(ROOT), logging.getLogger("fileserver"), write=write)
-            ctx = await sim.server(server, common.SERVER_IP)
+            if any(o.get("op") == "tfetch" for o in ops):
+                from simkit.stream import SimStreamNet
+                loop.streamnet = SimStreamNet(sim)
+                ctx = await aiocoap.Context.create_server_context(server, bind=(common.SERVER_IP, 5683),
+                                                                  transports=["udp6", "tcpserver"], loggername="coap-server")
+                sim.contexts.append(ctx)
+            else:
+                ctx = await sim.server(server, common.SERVER_IP)
             state["refresher"] = asyncio.create_task(server.check_files_for_refreshes())
             state["rclient"] = None
             if any(o.get("op") == "rfetch" for o in ops):
@@ -961,6 +981,91 @@ def execute(sim, scenario):
             settle(i, o, GET, path, {"code": rc.CONTENT} if verdict == "complete" else None, b"")
             outcomes.append({"op": i, "code": verdict})
 
+        async def run_tfetch(i, o):
+            """Download over TCP as a conforming RFC 8323 client: CSM (Max-Message-Size, Block-Wise-Transfer), GET,
+            then one request per block with the block number counting in the unit of the size exponent in use."""
+            from simkit.stream import TcpPeer, split_frames
+            path = o["path"]
+            nontrivial[0] = True
+            target = target_of(path)
+            content = model.get(target, "absent") if target is not None and path else "absent"
+            known = content != "absent" and content is not None
+            waiters = {}
+
+            def on_data(p, d):
+                frames, _ = split_frames(p.rx)
+                for (a, b, m, err) in frames:
+                    if m is not None and m["token"] in waiters and not waiters[m["token"]].done() and m["code"] >= 64 \
+                            and m["code"] < 224:
+                        waiters[m["token"]].set_result(m)
+            peer = TcpPeer(sim, "tcp-fetch#%d" % i, on_data=on_data)
+            try:
+                await peer.connect(common.SERVER_IP, 5683)
+            except OSError:
+                outcomes.append({"op": i, "code": "tcp-connect-failed"})
+                return
+            peer.send({"code": rc.CSM, "token": b"", "payload": b"",
+                       "options": [(2, rc.uint_bytes(o["mms"])), (4, b"")]})
+            base = [(rc.URI_PATH, c.encode("utf-8")) for c in path]
+            got = b""
+            verdict = None
+            szx = o["szx"]
+            k = 0
+            while True:
+                k += 1
+                tok = bytes([0x7A, i & 0xFF, k & 0xFF])
+                opts = list(base)
+                if szx is not None and (got or o["szx"] is not None):
+                    unit = 1024 if szx == 7 else bsize(szx)
+                    if len(got) % unit:
+                        verdict = "unaligned"
+                        break
+                    opts.append((rc.BLOCK2, rc.block_bytes(len(got) // unit, False, szx)))
+                waiters[tok] = loop.create_future()
+                peer.send({"code": GET, "token": tok, "options": opts, "payload": b""})
+                try:
+                    resp = await asyncio.wait_for(waiters[tok], 30)
+                except asyncio.TimeoutError:
+                    verdict = "no-answer"
+                    break
+                if resp["code"] != rc.CONTENT:
+                    verdict = "error " + rc.code_str(resp["code"])
+                    break
+                b2 = rc.opt1(resp, rc.BLOCK2)
+                if b2 is None:
+                    got += resp["payload"]
+                    verdict = "complete" if k == 1 else "block option vanished"
+                    break
+                n, more, s_ = rc.block_value(b2)
+                unit = 1024 if s_ == 7 else bsize(s_)
+                if n * unit != len(got):
+                    verdict = "wrong block number"
+                    violation("C19/blockwise-fetch-mismatch", ident(i, o, transport="tcp", why="block number %d of unit %d "
+                                                                    "does not continue at offset %d" % (n, unit, len(got))))
+                    break
+                if s_ == 7:
+                    sim.probe("bert_block")
+                got += resp["payload"]
+                szx = s_
+                if not more:
+                    verdict = "complete"
+                    break
+                if k > 4000:
+                    verdict = "never-ends"
+                    break
+            sim.log("app", "tfetch", verdict, len(got))
+            sig.update(("t %s %d;" % (verdict, len(got))).encode())
+            if known and verdict in ("complete", "never-ends", "block option vanished") and got != content:
+                violation("C19/blockwise-fetch-mismatch", ident(
+                    i, o, transport="tcp", verdict=verdict, got=len(got), expected=len(content),
+                    first_difference=next((j for j, (x, y) in enumerate(zip(got, content)) if x != y), min(len(got), len(content)))))
+            elif known and verdict == "complete":
+                sim.probe("tfetch_ok")
+            elif known and verdict not in ("complete",):
+                sim.anomaly("tcp-fetch-of-existing-file-not-completed", "%s %s" % (path, verdict))
+            peer.close()
+            outcomes.append({"op": i, "code": verdict})
+
         async def rfetch_body(i, o):
             path, szx = o["path"], o["szx"]
             target = target_of(path)
@@ -1002,6 +1107,8 @@ def execute(sim, scenario):
                     await run_req(i, o)
                 elif kind == "fetch":
                     await run_fetch(i, o)
+                elif kind == "tfetch":
+                    await run_tfetch(i, o)
                 elif kind == "rfetch":
                     nontrivial[0] = True
                     if o.get("wait", True):
